@@ -7,7 +7,10 @@ nix_manipulator). Anything outside the fragment is refused with `OutsideFragment
     expression  : variable / integer / float / "string" / path leaf, `[ … ]`, `{ … }`, `rec { … }`,
                   `( comments expr comments )`, `function comments argument` (apply_expression),
                   `with comments environment comments ; comments body` (with_expression),
-                  `assert comments condition comments ; comments body` (assert_expression)
+                  `assert comments condition comments ; comments body` (assert_expression),
+                  `expression comments . a₁.a₂.….aₙ` (select_expression without `or` default; every
+                  segment an identifier or a "string" without `${…}`; whitespace only between `.` and
+                  the attrpath, nothing at all between the segments and dots of the attrpath)
     set members : bindings whose attrpath is ONE identifier or "string" (no inherit, no `${…}` name),
                   comments anywhere between the tokens of a binding, none between `rec` and `{`
 
@@ -64,7 +67,8 @@ class _Conv:
     # ------------------------------------------------------------------ tree form
     # cst  : ("l", kind, text) | ("L", items, closeGap) | ("S", rec, recGap, items, closeGap)
     #      | ("P", items, closeGap) | ("A", cst, gc, gap, cst)
-    #      | ("K", isWith, c1, g1, head, c2, g2, c3, g3, body)     gc : [(gap, comment text)]
+    #      | ("K", isWith, c1, g1, head, c2, g2, c3, g3, body)
+    #      | ("D", cst, c1, g1, gd, [segment text])                gc : [(gap, comment text)]
     # item : ("c", gap, text) | ("e", gap, cst) | ("b", gap, name, c1, g1, c2, g2, cst, c3, g3)
     def expr(self, n):
         k = LEAF_KINDS.get(n.type)
@@ -153,7 +157,71 @@ class _Conv:
             return ("A", f, run, g, self.expr(arg))
         if n.type in KW_KINDS:
             return self.keyword(n)
+        if n.type == "select_expression":
+            return self.select(n)
         raise OutsideFragment(n.type)
+
+    def select(self, n):
+        """expression c1 g1 `.` gd a₁ `.` a₂ … `.` aₙ (no `or` default)"""
+        ch = n.children
+        base, ap = n.child_by_field_name("expression"), n.child_by_field_name("attrpath")
+        if n.child_by_field_name("default") is not None or any(c.type == "or" for c in ch):
+            raise OutsideFragment("select with default")
+        if base is None or ap is None or len(ch) < 3 or ch[0].id != base.id or ap.type != "attrpath":
+            raise OutsideFragment("select shape")
+        e = self.expr(base)
+        run, pos, prev, dot = [], base.end_byte, base, None
+        for c in ch[1:]:
+            if c.type == "comment":
+                if dot is not None:
+                    raise OutsideFragment("select shape")   # comment between `.` and the attrpath
+                g = self.gap(pos, c.start_byte)
+                self.rows(prev, c, g)
+                run.append((g, self.t(c.start_byte, c.end_byte)))
+                pos, prev = c.end_byte, c
+            elif c.type == "." and dot is None:
+                g1 = self.gap(pos, c.start_byte)
+                self.rows(prev, c, g1)
+                if self.t(c.start_byte, c.end_byte) != ".":
+                    raise OutsideFragment("select shape")
+                dot, pos, prev = c, c.end_byte, c
+            elif dot is not None and c.id == ap.id and c.id == ch[-1].id:
+                gd = self.gap(pos, c.start_byte)
+                self.rows(prev, c, gd)
+                break
+            else:
+                raise OutsideFragment("select shape")
+        else:
+            raise OutsideFragment("select shape")
+        return ("D", e, run, g1, gd, self.attrpath(ap))
+
+    def attrpath(self, ap):
+        """segments of the attrpath of a select: `a₁.a₂.….aₙ` with nothing between segments and dots"""
+        shape = OutsideFragment("select attrpath shape")
+        ch = ap.children
+        if len(ch) % 2 != 1:
+            raise shape
+        segs, pos = [], ap.start_byte
+        for i, c in enumerate(ch):
+            if c.start_byte != pos:
+                raise shape   # whitespace (or a comment) inside the attrpath
+            if i % 2 == 1:
+                if c.type != "." or c.end_byte - c.start_byte != 1:
+                    raise shape
+            elif c.type == "identifier":
+                if c.child_count != 0:
+                    raise shape
+                segs.append(self.t(c.start_byte, c.end_byte))
+            elif c.type == "string_expression":
+                if any(x.type in ("interpolation", "comment") for x in _walk(c)):
+                    raise shape
+                segs.append(self.t(c.start_byte, c.end_byte))
+            else:
+                raise shape   # `${…}` segment, comment
+            pos = c.end_byte
+        if pos != ap.end_byte or not segs:
+            raise shape
+        return segs
 
     def keyword(self, n):
         """`with` c1 g1 environment c2 g2 `;` c3 g3 body  /  `assert` c1 g1 condition c2 g2 `;` c3 g3 body"""
@@ -265,6 +333,8 @@ def flatten(x) -> str:
         gc = lambda r: "".join(g + c for g, c in r)  # noqa: E731
         return (("with" if x[1] else "assert") + gc(x[2]) + x[3] + flatten(x[4]) + gc(x[5]) + x[6] + ";"
                 + gc(x[7]) + x[8] + flatten(x[9]))
+    if k == "D":
+        return flatten(x[1]) + "".join(g + c for g, c in x[2]) + x[3] + "." + x[4] + ".".join(x[5])
     if k == "c":
         return x[1] + x[2]
     if k == "e":
@@ -293,6 +363,8 @@ def sexp(x):
         gc = lambda r: [[hx(g), hx(c)] for g, c in r]  # noqa: E731
         return ["K", "w" if x[1] else "a", gc(x[2]), hx(x[3]), sexp(x[4]), gc(x[5]), hx(x[6]), gc(x[7]), hx(x[8]),
                 sexp(x[9])]
+    if k == "D":
+        return ["D", sexp(x[1]), [[hx(g), hx(c)] for g, c in x[2]], hx(x[3]), hx(x[4]), [hx(a) for a in x[5]]]
     if k == "c":
         return ["c", hx(x[1]), hx(x[2])]
     if k == "e":
@@ -320,6 +392,8 @@ def code_tokens(x) -> list[str]:
         return code_tokens(x[1]) + code_tokens(x[4])
     if k == "K":
         return ["with" if x[1] else "assert"] + code_tokens(x[4]) + [";"] + code_tokens(x[9])
+    if k == "D":
+        return code_tokens(x[1]) + [t for a in x[5] for t in (".", a)]
     if k == "c":
         return []
     if k == "e":
